@@ -13,7 +13,7 @@ res() { echo "{\"dir\":\"$d\",\"place\":\"$place\",\"applies\":$1,\"builds\":$2,
 cp "$d/demo_test.go" "$place/$name"
 tests=$(grep -oE "^func (Test[A-Za-z0-9_]+)" "$d/demo_test.go" | awk '{print $2}' | paste -sd'|')
 go1.26.8 test -vet=off -count=1 -run "^($tests)\$" ./$place/ > /tmp/confirm.$$.clean 2>&1; clean=$?
-if ! git apply "$d/patch.diff" 2>/dev/null; then rm -f "$place/$name"; cd /; git -C /repo worktree remove --force "$wt"; res false false false $([ $clean = 0 ] && echo true || echo false) false ""; exit 0; fi
+pf="$d/patch.diff"; [ -f "$d/patch.ported.diff" ] && pf="$d/patch.ported.diff"; if ! git apply "$pf" 2>/dev/null; then rm -f "$place/$name"; cd /; git -C /repo worktree remove --force "$wt"; res false false false $([ $clean = 0 ] && echo true || echo false) false ""; exit 0; fi
 if ! go1.26.8 build ./... >/dev/null 2>&1; then cd /; git -C /repo worktree remove --force "$wt"; res true false false false false ""; exit 0; fi
 go1.26.8 test -vet=off -count=1 -run "^($tests)\$" ./$place/ > /tmp/confirm.$$.mut 2>&1; mut=$?
 rm -f "$place/$name"
